@@ -325,8 +325,10 @@ def check_units(ctx, db):
             if not is_store or rhs is None:
                 continue
             t = norm(rhs.text())
-            if rhs.cv is not None or re.match(r'^v?\w*coords\[\d\]$|^\w+\[\d\]$', t) or t.startswith('coords['):
-                continue
+            r0 = _strip_casts(rhs)
+            copy_of_int32 = r0 is not None and (r0.k == 'ArraySubscriptExpr' or (r0.k == 'CXXOperatorCallExpr' and r0.op == '[]') or (r0.k == 'UnaryOperator' and r0.op == '*')) and (r0.ct or r0.t or '').replace('const ', '').replace('&', '').strip() in ('int32_t', 'int')
+            if rhs.cv is not None or copy_of_int32:
+                continue            # a constant, or a copy of a value that is already in database units (the closing vertex)
             n += 1
             ok = re.match(r'^\(int32_t\)lround\(\(.* \* scaling\)\)$', t) is not None or re.match(r'^\(\(this->scale_width \? 1 : \(-1\)\) \* \(int32_t\)lround\(\(.* \* scaling\)\)\)$', t) is not None
             ctx.check(ok, 'R-UNIT', '%s/int32@%d' % (qn.replace('gdstk::', ''), x.id), x.loc(), 'stored as (int32_t)lround(user x scaling)', 'int32 database value computed as `%s` (not lround(user x scaling))' % t[:120])
@@ -377,7 +379,7 @@ def offsets_loop(f):
     D = deps.Deps(f)
     found = []
     for L in loops.loops_of(f):
-        if L.id < go[0].id:
+        if L.pos < go[0].pos:
             continue
         lp = loops.Loop(f, L)
         trip = lp.trip()
